@@ -8,6 +8,7 @@ import z3
 ANY = z3.DeclareSort("Any")
 DT = z3.DeclareSort("DateTime")
 dt_ts = z3.Function("dt_ts", DT, z3.RealSort())  # seconds since the epoch, as a real (assumption A)
+dt_off = z3.Function("dt_utcoffset", DT, z3.RealSort())  # utc offset of an aware datetime, seconds
 any_truthy = z3.Function("any_truthy", ANY, z3.BoolSort())
 STRSEQ = z3.SeqSort(z3.StringSort())
 
